@@ -574,6 +574,12 @@ class Monitor:
                 self.auth[k] = ev['user']
             return
         m, act = self.maps.get(u), self.active.get(u)
+        for rr in rs:
+            for nm, val in rr.items:
+                if nm == b'OWNER' and isinstance(val, bytes) and ev['word'] == b'CAPABILITY' \
+                        and val != u.encode():
+                    self.bad('sieve_isolation', f'connection authenticated as {u} is told OWNER {val!r}',
+                             'owner_wrong')
         if kind == 'UNAUTH' and r.cond == 'OK':
             del self.auth[k]
             return
@@ -819,6 +825,16 @@ def gen_program(rng, nconns: int, length: int, cfg_name: str = 'default'):
         evs.append(_fixed(k, 'SETACTIVE', (names[0],), b'SETACTIVE ' + q(names[0]) + b'\r\n'))
     while len(evs) < length:
         evs.append(gen_event(rng, nconns, names, datas))
+    if logged and rng.random() < 0.6:
+        # a connection changes hands: UNAUTHENTICATE, then another user logs in on it
+        k = rng.choice(logged)
+        first = next(e for e in evs if e['kind'] == 'AUTH' and e['conn'] == k)
+        other = rng.choice([u for u in USERS if u != first.get('user')])
+        i = rng.randrange(len(logged) + 3 if len(evs) > len(logged) + 3 else 1, len(evs) + 1)
+        evs[i:i] = [_fixed(k, 'UNAUTH', (), b'UNAUTHENTICATE\r\n'),
+                    gen_auth(rng, k, user=other, how=rng.choice(['plain', 'plain-cont', 'login', 'lit']))]
+        if rng.random() < 0.5:
+            evs.insert(i + 2, _fixed(k, 'CAPABILITY', (), b'CAPABILITY\r\n'))
     return evs
 
 
@@ -1081,6 +1097,7 @@ ALPHABET = [
     ('CHECK', lambda k: _fixed(k, 'CHECK', (b'kee',), b'CHECKSCRIPT "kee"\r\n')),
     ('CHECKok', lambda k: _fixed(k, 'CHECK', (b'keep;',), b'CHECKSCRIPT {5+}\r\nkeep;\r\n')),
     ('HAVE', lambda k: _fixed(k, 'HAVESPACE', (b'a', 5), b'HAVESPACE "a" 5\r\n')),
+    ('CAP', lambda k: _fixed(k, 'CAPABILITY', (), b'CAPABILITY\r\n')),
 ]
 
 
@@ -1101,9 +1118,12 @@ def section_programs(ctx) -> None:
     login = [gen_auth(None, 1, 'u1', 'plain')]
     # two starting points: u1's store empty / holding the active script "a"
     starts = [login, login + [amk['PUTa'](1), amk['ACTa'](1)]]
+    # ... and connection 1 re-used by another user: u1 stores and activates "a", logs out of
+    # the connection with UNAUTHENTICATE, u2 logs in on it (always to depth 2)
+    relogged = starts[1] + [amk['UNAUTH'](1), gen_auth(None, 1, 'u2', 'plain')]
     maxlen = 3 if not ctx.quick else 2
-    for pre in starts:
-        for n in range(1, maxlen + 1):
+    for pre in starts + [relogged]:
+        for n in range(1, (maxlen if pre is not relogged else 2) + 1):
             for t in itertools.product(letters, repeat=n):
                 progs.append(('default', 2, pre + [mk(k) for k, _nm, mk in t], ('u1', 'u2')))
     # the gate on its own: every command of the alphabet on the unauthenticated connection,
@@ -1113,6 +1133,22 @@ def section_programs(ctx) -> None:
                      [gen_auth(None, 0, 'u1', 'plain'), amk['UNAUTH'](0)]):
             for pre in starts:
                 progs.append(('default', 2, pre + pre0 + [mk(0), amk['LIST'](1)], ('u1', 'u2')))
+    # one connection, several users in sequence: A logs in (and stores something), leaves with
+    # UNAUTHENTICATE, B logs in on the same connection — or tries to while A is still
+    # authenticated (refused) — then every command of the alphabet, then both users' views
+    for ua, ub in (('u1', 'u2'), ('u2', 'u1'), ('u1', 'u1')):
+        for stored in (False, True):
+            for leave in (True, False):
+                for how in ('plain', 'login'):
+                    for _nm, mk in ALPHABET:
+                        evs = [gen_auth(None, 0, ua, 'plain')]
+                        if stored:
+                            evs += [amk['PUTa'](0), amk['ACTa'](0)]
+                        if leave:
+                            evs.append(amk['UNAUTH'](0))
+                        evs += [gen_auth(None, 0, ub, how), amk['CAP'](0), mk(0), amk['LIST'](0),
+                                amk['GETa'](0)]
+                        progs.append(('default', 2, evs, ('u1', 'u2')))
     n_exh = len(progs)
     if ctx.quick:      # a sample of the length-3 sequences
         for _ in range(300):
